@@ -44,7 +44,7 @@ Definition init_st (c : corecase) (args : list Z) : st :=
      mem := []; pages := cc_pages c; max_pages := cc_maxpages c |}.
 
 (* 0 = agreement; 41 result / trap verdict differs; 42 globals differ; 43 stuck; 44 result shape; 45 out of fuel;
-   46 memory differs; 47 memory size differs *)
+   46 memory differs; 47 memory size differs; 48 the interpreter went wrong (a failure no validated body reaches: Proofs/TypeSafety.v) *)
 Definition check_call (c : corecase) (call : list Z * cres * N * N * N * N) : N :=
   let '(args, expect, g0, g1, msum, pgs) := call in
   let tys := fun i => nth_error (cc_tys c) (N.to_nat i) in
@@ -64,6 +64,7 @@ Definition check_call (c : corecase) (call : list Z * cres * N * N * N * N) : N 
   | Br _ s => match results_of c s with Some vs => fin s (Some vs) | None => 44 end
   | Stop Return s => match results_of c s with Some vs => fin s (Some vs) | None => 44 end
   | Stop Trap s => fin s None
+  | Stop Wrong s => 48
   | Stuck => 43
   | Fuel => 45
   end.
